@@ -71,6 +71,7 @@ CONSTANT EMIT = FALSE
 CONSTANT Kind = "strings"
 CONSTANT NIns = 2
 CONSTANT NPatch = "all"
+CONSTANT StratMode = "none"
 INVARIANT %s
 CHECK_DEADLOCK FALSE
 """
